@@ -8,18 +8,21 @@ MODEL_MODULES = ["Base", "Index", "Views"]
 HANDLERS = ["h_c03.ml"]
 CLAIM = dict(
     text=("Kernel-checked for every dimension and all positive extents (element counts below 2^64 where the C++ multiplies in "
-          "size_t): shape_reshape accepts exactly the targets NumPy accepts (one inferred -1 included) and yields NumPy's shape; "
-          "reshape/flatten and the reshape-based expand_dims, squeeze, atleast_nd keep the row-major order of the elements and "
-          "produce NumPy's shape; transpose (default, explicit, negative axes) produces NumPy's shape and reads, at every index, "
-          "the element NumPy reads, is a bijection between the index sets, transposing by p and then by the inverse of p and "
-          "default-transposing twice restore the array; swapaxes and single-axis moveaxis reduce to that transpose with NumPy's "
-          "axis order; flip with non-negative axes reads NumPy's element and flipping twice is the identity; squeeze after "
-          "expand_dims restores the (unit-free) shape and every element; every index map stays inside the source (X_inb lemmas). "
+          "size_t): shape_reshape accepts exactly the targets NumPy accepts (one inferred -1 included; rejection included) and "
+          "yields NumPy's shape; reshape/flatten and the reshape-based expand_dims (axis or axis list, negative allowed), squeeze, "
+          "atleast_nd produce NumPy's shape, keep the row-major order of the elements and enumerate the source in C order; "
+          "transpose (default, explicit, negative axes) produces NumPy's shape and reads at every index the element NumPy reads, "
+          "is a bijection of the index sets (Permutation of the index enumerations), transposing by p and then by the inverse of "
+          "p and default-transposing twice restore shape and every index; swapaxes is NumPy's swap and a transpose by a "
+          "permutation; flip with non-negative axes reads NumPy's element and flipping twice is the identity; squeeze after "
+          "expand_dims restores a unit-free shape and every index; every index map stays inside the source. "
+          "PARTIAL: moveaxis (single axes and axis lists) is proved for sources of dimension <= 5 (any extents) by a kernel "
+          "sweep of the finite argument space; above that it is corresponded only. "
+          "REFUTED (listed findings): flip does not normalise a negative axis; a 0-d result (squeeze of an all-ones shape, "
+          "reshape to ()) comes back as Nothing. "
           "Tied to the C++ by running the index functions on 6 container kinds, the views on run-time shaped arrays with run-time "
-          "and compile-time arguments and the eager array:: versions, comparing shape and every element. "
-          "Findings (listed): flip does not normalise a negative axis; a 0-d result (squeeze of an all-ones shape, reshape to ()) "
-          "comes back as Nothing. moveaxis with axis LISTS is corresponded only (partial)."),
-    ref="5.3", technique="Coq proof (list induction, nth-extensionality, C01 round trips) + differential correspondence with the extracted model",
+          "and compile-time-constant arguments and the eager array:: versions, comparing shape and every element."),
+    ref="5.3", technique="Coq proof (list induction, nth-extensionality, C01 round trips, one finite vm_compute sweep for moveaxis) + differential correspondence with the extracted model",
     extra="")
 RULE = ("all source shapes dim 1..4 extents 1..3 (quick; thorough: extents 1..4): every equal-count target of dim 1..3 (dim 4 sampled) "
         "with every single -1 position, every permutation (plus negative-axis spellings), every signed axis / axis pair for "
@@ -32,7 +35,7 @@ THEOREM_STATUS = {
                "C03_transpose_bijection", "C03_transpose_inverse", "C03_transpose_default_involutive", "C03_swapaxes",
                "C03_expand_dims", "C03_squeeze", "C03_atleast_nd", "C03_flip_on_domain", "C03_flip_flip",
                "C03_squeeze_expand_dims", "C03_index_maps_in_bounds"],
-    "partial": ["C03_moveaxis_single_partial"],
+    "partial": ["C03_moveaxis_upto_dim5_partial"],
     "refuted": ["C03_flip_negative_axis_refuted", "C03_zero_dim_result_refuted"]}
 ASSUMPTIONS = ["extents are positive and element counts stay below 2^64 (size_t products in shape_reshape)",
                "0-d sources cannot be built as run-time shaped ndarray_t and are not explored",
@@ -127,7 +130,8 @@ def gen_cases(rng, tier):
                 add("laws", "transpose2 %s %s %s" % (A(s), L(signed(p, n, rng)), L(rng.choice(perms))))
         for name in CT_TRANSPOSE.get(n, []):
             if rng.random() < 0.5: add("ct", "transpose_ct S:%s %s" % (name, A(s)))
-        add("transpose", "reverse S:%s %s" % (rng.choice(["vec", "veci", "sv", "arr", "tup"]), L(s)))
+        for k in ("vec", "sv", "arr", "tup"):       # run-time loop arm and the unrolled fixed-size arm, every shape
+            add("transpose", "reverse S:%s %s" % (k, L([e + j for j, e in enumerate(s)])))
     # ---------------- moveaxis / swapaxes
     mv = []; sw = []
     for s in shapes:
